@@ -45,6 +45,21 @@ pub enum IntegDecl {
     MultiWithCorrect,
     /// several hashes of the writer's algorithm, all wrong
     MultiAllWrong,
+    /// two correct hashes: one under the writer's algorithm and one under another algorithm
+    MultiTwoAlgos,
+}
+
+/// Something another process does to the cache between a writer's last chunk and its commit.
+#[derive(Clone, Copy, Debug, Default, Serialize, Deserialize, PartialEq, Eq, Hash)]
+pub enum Interfere {
+    #[default]
+    None,
+    /// `clear_sync` of the whole cache (removes the writer's temp file and directory)
+    Clear,
+    /// the temp directory is removed
+    RemoveTmp,
+    /// the content area is removed
+    RemoveContentArea,
 }
 
 /// Which public entry point performs the write.
@@ -79,6 +94,11 @@ pub struct WriteSpec {
     pub metadata: Option<Value>,
     pub raw_metadata: Option<Vec<u8>>,
     pub flush: bool,
+    /// milliseconds to wait between the last chunk and commit (streamed entries)
+    #[serde(default)]
+    pub pause_ms: u8,
+    #[serde(default)]
+    pub interfere: Interfere,
 }
 
 impl WriteSpec {
@@ -95,6 +115,8 @@ impl WriteSpec {
             metadata: None,
             raw_metadata: None,
             flush: false,
+            pause_ms: 0,
+            interfere: Interfere::None,
         }
     }
     pub fn streamed(&self) -> bool {
